@@ -46,6 +46,16 @@ const E_OTHER: u32 = 0x1ffff;
 /// than this while another reply of such a case is outstanding, the timeout strikes earlier than
 /// scripted; the driver accepts that (a timeout at or before the scripted one), see driver.ml
 const TIMEOUT_MS: u64 = 4000;
+/// kind E: a short client timeout with one reply scripted to take far longer (2 s), so that the
+/// timeout strikes that earlier attempt on purpose (exercises the early-timeout acceptance)
+const SHORT_TIMEOUT_MS: u64 = 400;
+static REPLAY: std::sync::atomic::AtomicBool = std::sync::atomic::AtomicBool::new(false);
+/// observation of a case that could not run: `error ..` in a generated run (counted and capped by
+/// checks/c07.py), `replay-error ..` in a replay (a replay must never pass by not running)
+fn not_run(why: String) -> String {
+    let tag = if REPLAY.load(std::sync::atomic::Ordering::Relaxed) { "replay-error" } else { "error" };
+    format!("{} {}", tag, why.replace(' ', "_"))
+}
 
 #[derive(Clone, Debug, PartialEq)]
 enum Fault {
@@ -203,11 +213,16 @@ impl Case {
 // scripted retry policy: the decision travels in the error message ("verif:<s|n|d|i>")
 // ------------------------------------------------------------------------------------------
 #[derive(Debug)]
-struct ScriptedPolicy;
-struct ScriptedSession;
+struct ScriptedPolicy {
+    /// policy "x": a broken connection is retried on the next target; "xd": it is not retried
+    broken_next: bool,
+}
+struct ScriptedSession {
+    broken_next: bool,
+}
 impl RetryPolicy for ScriptedPolicy {
     fn new_session(&self) -> Box<dyn RetrySession> {
-        Box::new(ScriptedSession)
+        Box::new(ScriptedSession { broken_next: self.broken_next })
     }
 }
 impl RetrySession for ScriptedSession {
@@ -219,7 +234,7 @@ impl RetrySession for ScriptedSession {
                 Some("i") => RetryDecision::IgnoreWriteError,
                 _ => RetryDecision::DontRetry,
             },
-            RequestAttemptError::BrokenConnectionError(_) => RetryDecision::RetryNextTarget(None),
+            RequestAttemptError::BrokenConnectionError(_) if self.broken_next => RetryDecision::RetryNextTarget(None),
             _ => RetryDecision::DontRetry,
         }
     }
@@ -408,8 +423,14 @@ async fn run_case(env: &mut Env, c: &Case) -> String {
     }
     let id = env.cluster.prepared_id(&text);
     env.cluster.script(NodeSel::Any, text.as_str(), actions_for(env, c));
-    let timeout = if c.has_timeout() { Some(Duration::from_millis(TIMEOUT_MS)) } else { None };
-    let retry: Arc<dyn RetryPolicy> = if c.policy == "x" { Arc::new(ScriptedPolicy) } else { Arc::new(DefaultRetryPolicy::new()) };
+    let timeout = if c.kind == 'E' {
+        Some(Duration::from_millis(SHORT_TIMEOUT_MS))
+    } else if c.has_timeout() {
+        Some(Duration::from_millis(TIMEOUT_MS))
+    } else {
+        None
+    };
+    let retry: Arc<dyn RetryPolicy> = if c.policy.starts_with('x') { Arc::new(ScriptedPolicy { broken_next: c.policy != "xd" }) } else { Arc::new(DefaultRetryPolicy::new()) };
     let idem = c.policy != "dn";
 
     if let Cons::Single(st) = &c.cons {
@@ -434,7 +455,7 @@ async fn run_case(env: &mut Env, c: &Case) -> String {
                     p.set_is_idempotent(idem);
                     env.session.execute_single_page(&p, (uniq as i32,), ps).await
                 }
-                Err(e) => return format!("error prepare-failed:{:?}", e).replace(' ', "_"),
+                Err(e) => return not_run(format!("prepare-failed:{:?}", e)),
             }
         };
         let out = match res {
@@ -475,7 +496,7 @@ async fn run_case(env: &mut Env, c: &Case) -> String {
         st.set_page_size(5);
         st.set_request_timeout(timeout);
         match scylla::client::verif_pager::execute_iter_on_new_connection(env.cluster.contact_point(0), st).await {
-            Err(e) => return format!("error setup:{}", e).replace(' ', "_"),
+            Err(e) => return not_run(format!("setup:{}", e)),
             Ok(Err(NextRowError::NextPageError(e))) => Err(format!("f{:x}", next_page_error_code(&e))),
             Ok(Err(_)) => Err(format!("f{:x}", E_OTHER - 5)),
             Ok(Ok(p)) => Ok(p),
@@ -492,7 +513,7 @@ async fn run_case(env: &mut Env, c: &Case) -> String {
                 p.set_request_timeout(timeout);
                 env.session.execute_iter(p, (uniq as i32,)).await.map_err(|e| ctor_err(&e))
             }
-            Err(e) => return format!("error prepare-failed:{:?}", e).replace(' ', "_"),
+            Err(e) => return not_run(format!("prepare-failed:{:?}", e)),
         }
     } else {
         let mut st = Statement::new(text.clone());
@@ -543,9 +564,10 @@ async fn run_case(env: &mut Env, c: &Case) -> String {
             }
         },
     }
-    if matches!(c.cons, Cons::Drop(_)) {
-        // let the worker task notice the drop: wait until the mock has seen nothing new from
-        // this statement for a while.  An early snapshot only makes the request list shorter,
+    if matches!(c.cons, Cons::Drop(_)) || c.has_timeout() {
+        // drop: let the worker task notice the drop; timeout: the client may return its error
+        // before the frame it queued last has reached the mock.  Wait until the mock has seen
+        // nothing new from this statement for a while.  An early snapshot only makes the request list shorter,
         // which the acceptor allows; it never makes a correct run look wrong.
         let t0 = Instant::now();
         let mut last = usize::MAX;
@@ -587,15 +609,11 @@ fn gen_state(r: &mut Rng) -> Vec<u8> {
 }
 
 /// a retried fault for the given policy: (code, decision)
-fn gen_retried(r: &mut Rng, policy: &str, used_rt: &mut bool, can_break: bool) -> Fault {
+fn gen_retried(r: &mut Rng, policy: &str, used_rt: &mut bool) -> Fault {
     match policy {
         "x" => {
             let code = *r.pick(&[0x1001u32, 0x1002, 0x1003, 0x0000, 0x1200, 0x1100, 0x1000, 0x2200, 0x1300]);
-            if can_break && r.chance(1, 12) {
-                Fault::Err(E_BROKEN, 'n')
-            } else {
-                Fault::Err(code, if r.bool() { 's' } else { 'n' })
-            }
+            Fault::Err(code, if r.bool() { 's' } else { 'n' })
         }
         "di" => {
             if !*used_rt && r.chance(1, 4) {
@@ -630,7 +648,7 @@ fn gen_case(r: &mut Rng, max_rows: usize, tier_thorough: bool) -> Case {
     let nodes = r.range(1, 4) as usize;
     // a fifth of the cases go through Connection::execute_iter (no retries there: policy "f")
     let mode = if r.chance(1, 5) { 'c' } else { 's' };
-    let policy = if mode == 'c' {
+    let mut policy = if mode == 'c' {
         "f"
     } else {
         match r.below(10) {
@@ -684,7 +702,7 @@ fn gen_case(r: &mut Rng, max_rows: usize, tier_thorough: bool) -> Case {
             let nf = r.range(1, 3);
             let mut adv = 0;
             for _ in 0..nf {
-                let f = gen_retried(r, &policy, &mut used_rt, false);
+                let f = gen_retried(r, &policy, &mut used_rt);
                 if let Fault::Err(_, d) = &f {
                     if *d == 'n' {
                         // keep the plan from running out here (exhaustion is generated separately)
@@ -712,7 +730,10 @@ fn gen_case(r: &mut Rng, max_rows: usize, tier_thorough: bool) -> Case {
         let kb = r.below(npages as u64) as usize;
         script[kb].0.retain(|f| !matches!(f, Fault::Err(_, 'n')));
         let at = r.below(script[kb].0.len() as u64 + 1) as usize;
-        if policy == "dn" {
+        if policy == "dn" || (policy == "x" && r.chance(1, 3)) {
+            if policy == "x" {
+                policy = "xd".to_string();
+            }
             script[kb].0.truncate(at);
             script[kb].0.push(Fault::Err(E_BROKEN, 'd'));
         } else {
@@ -755,7 +776,7 @@ fn gen_case(r: &mut Rng, max_rows: usize, tier_thorough: bool) -> Case {
             script[k].1 = if r.bool() { Resp::Void } else { Resp::NonResult };
         }
         6 if r.chance(1, 3) => {
-            // the server announces "no more pages" early / never: truncate or keep a state on the last page
+            // the server announces "no more pages" before the script ends: the rest must not be read
             let k = r.below(npages as u64) as usize;
             if let Resp::Rows(rows, _) = script[k].1.clone() {
                 script[k].1 = Resp::Rows(rows, None);
@@ -849,6 +870,40 @@ fn timeout_cases(r: &mut Rng, n: usize) -> Vec<Case> {
                 _ => Cons::Full,
             };
             Case { kind: 'T', mode, api: if mode == 'c' || r.bool() { 'e' } else { 'q' }, cons, nodes, policy: if mode == 'c' { "f".into() } else { "x".into() }, script }
+        })
+        .collect()
+}
+
+/// kind E: the client timeout is short (400 ms) and one reply BEFORE the scripted `T` is delayed
+/// by 2 s: the timeout strikes that earlier attempt, deterministically.  The driver must accept
+/// the observation through the early-timeout acceptor (and only through it).
+fn forced_early_timeout_cases(r: &mut Rng, n: usize) -> Vec<Case> {
+    (0..n)
+        .map(|i| {
+            let mode = if i % 2 == 1 { 'c' } else { 's' };
+            let npages = r.range(2, 4) as usize;
+            let kt = r.range(1, npages as u64 - 1) as usize; // page of the scripted T
+            let kd = r.below(kt as u64 + 1) as usize; // page of the long delay (<= kt)
+            let mut next = 0xe000u32 + (i as u32) * 64;
+            let script = (0..npages)
+                .map(|p| {
+                    let rows: Vec<u32> = (0..r.range(1, 3)).map(|_| { next += 1; next }).collect();
+                    let st = if p + 1 == npages { None } else { Some(gen_state(r)) };
+                    let mut fs = vec![];
+                    if p == kd {
+                        fs.push(Fault::Delay(2000));
+                    }
+                    if p == kt {
+                        if p == kd {
+                            // the delayed reply is a retried error; the scripted T comes after it
+                            fs.push(Fault::Err(0x1001, if mode == 's' { 's' } else { 'd' }));
+                        }
+                        fs.push(Fault::Timeout);
+                    }
+                    (fs, Resp::Rows(rows, st))
+                })
+                .collect();
+            Case { kind: 'E', mode, api: if mode == 'c' || r.bool() { 'e' } else { 'q' }, cons: Cons::Full, nodes: 2, policy: if mode == 'c' { "f".into() } else { "x".into() }, script }
         })
         .collect()
 }
@@ -988,6 +1043,7 @@ fn main() {
     // lines that could not even be parsed: reported, never dropped
     let mut unparsable: Vec<String> = Vec::new();
     if let Some(p) = &a.replay {
+        REPLAY.store(true, std::sync::atomic::Ordering::Relaxed);
         for l in read_cases(p) {
             match Case::parse(&l) {
                 Some(c) => cases.push(c),
@@ -1006,6 +1062,7 @@ fn main() {
         cases.extend(unprepared_cases(&mut r, if thorough { 80 } else { 16 }));
         cases.extend(single_cases(&mut r, if thorough { 200 } else { 30 }));
         cases.extend(timeout_cases(&mut r, if thorough { 12 } else { 4 }));
+        cases.extend(forced_early_timeout_cases(&mut r, if thorough { 6 } else { 2 }));
     }
     let all_lines: Vec<String> = cases.iter().map(|c| c.line()).collect();
     let rt = tokio::runtime::Builder::new_multi_thread().worker_threads(6).enable_all().build().expect("runtime");
@@ -1042,7 +1099,7 @@ fn main() {
     let done: std::collections::HashSet<usize> = results.iter().map(|x| x.0).collect();
     for (i, l) in all_lines.iter().enumerate() {
         if !done.contains(&i) {
-            results.push((i, l.clone(), "error group-failed".to_string()));
+            results.push((i, l.clone(), not_run("group-failed".to_string())));
         }
     }
     results.sort_by_key(|x| x.0);
